@@ -33,7 +33,7 @@ def strategy(tier):
     enc = st.one_of(
         st.tuples(st.just("negate"), st.integers(0, 20)),
         st.tuples(st.just("negate"), st.integers(0, 20)),
-        st.tuples(st.just("scale"), st.integers(0, 20), st.sampled_from([0.25, 2, 8, 1024])),
+        st.tuples(st.just("scale"), st.integers(0, 20), st.sampled_from([0.25, 2, 8, 1024, 2.0**-40, 2.0**40])),
         st.tuples(st.just("rename"), st.integers(0, 20), st.integers(0, 10**6)),
         st.tuples(st.just("rows"), st.integers(0, 10**6)),
         st.tuples(st.just("columns"), st.integers(0, 10**6)),
@@ -73,30 +73,42 @@ def tie_explains(base, other, measure):
     return all(tied(f) for f in moved)
 
 
-def threshold_explains(base, other, X, quant, qual, cfg):
-    """True when a feature present in only one of the two selections has an association with another feature
-    of its type that equals thresh_corr within 1e-9 (its own filtering verdict then depends on rounding, and
-    the remaining differences follow from the n_best cut)."""
+def threshold_explains(base, other, X, X2, quant, qual, cfg, measure, n_best):
+    """True when the difference between the two selections is explained by rounding of an inter-feature
+    association at thresh_corr: every feature f present in only one selection must, in the selection L where
+    it is absent, either (i) meet a better-or-equally ranked feature g of L whose association with f, computed
+    the way the filter computes it, is > thresh_corr on the frame where f is absent and <= thresh_corr on the
+    frame where f is present (the two values differing by rounding only, < 1e-9), or (ii) be beaten by n_best
+    features of L (it was only displaced by the cut); and (i) must occur at least once."""
     differing = set(base) ^ set(other)
     if not differing:
         return False
+
+    def assoc(frame, f, g):
+        if f in quant:
+            return abs(float(frame[[g, f]].corr(cfg["quant_filter"]).iloc[0, 1]))
+        v, t = cramer_tschuprow(frame[f], frame[g])
+        return v if cfg["qual_filter"] == "cramerv" else t
+
+    on_threshold = False
+    thr = cfg["thresh_corr"]
     for f in differing:
-        same = quant if f in quant else qual
+        if math.isnan(measure.get(f, float("nan"))):
+            return False
+        absent_from, frame_absent, frame_present = (other, X2, X) if f in base else (base, X, X2)
+        same = [g for g in absent_from if (g in quant) == (f in quant)]
+        better = [g for g in same if not math.isnan(measure[g]) and measure[g] >= measure[f] - 1e-9 * max(1.0, abs(measure[f]))]
         hit = False
-        for g in same:
-            if g == f:
-                continue
-            if f in quant:
-                c = abs_corr(X[f], X[g], cfg["quant_filter"])
-            else:
-                v, t = cramer_tschuprow(X[f], X[g])
-                c = v if cfg["qual_filter"] == "cramerv" else t
-            if not math.isnan(c) and abs(c - cfg["thresh_corr"]) <= 1e-9:
+        for g in better:
+            ca, cp = assoc(frame_absent, f, g), assoc(frame_present, f, g)
+            if not math.isnan(ca) and not math.isnan(cp) and ca > thr >= cp and abs(ca - cp) <= 1e-9:
                 hit = True
                 break
         if hit:
-            return True  # the other differing features follow from the n_best cut
-    return False
+            on_threshold = True
+        elif len(better) < n_best:
+            return False
+    return on_threshold
 
 
 def check_case(case) -> Outcome:
@@ -180,7 +192,7 @@ def check_case(case) -> Outcome:
         if tie_explains(base_list, other, measure):
             out.label("tie_ambiguous")
             continue
-        if threshold_explains(base_list, other, X, quant, qual, cfg):
+        if threshold_explains(base_list, other, X, X2, quant, qual, cfg, measure, n_best):
             # an inter-feature association sits on thresh_corr up to rounding (e.g. |rho| of two monotone
             # copies computed as 1.0000000000000002 in one row order and 1.0 in the other)
             out.label("threshold_ambiguous")
